@@ -11,6 +11,7 @@ Line-protocol handlers for property C18.
                                              `T:kind:hex:line` code token, `C:hex:line` comment, `E:line` error
 * `c18.comment_text <text>`                → `<hex commentText> <linesCount>`          (Model.commentText)
 * `c18.long_form <text>`                   → `true|false|empty`   (which branch of `text()` the model takes)
+* `c18.level <text>`                       → the level `findLevel` picks for the long form, or `-`
 * `c18.append_safe <text> <src>`           → `true|false`   (the statement `AppendSafeAt text src 1`, decided by running the lexer)
 * `c18.remove_comments <src> <pat>*`       → `code=… comments=… lines=… after=n` of `removeComments LitPat.isMatch pats (toFile src)`
 * `c18.remove_spaces <src>`                → same for `removeSpaces`
@@ -102,6 +103,12 @@ def handle (op : String) (args : List String) : String :=
   | "long_form", [text] =>
     match hexToBytes? text with
     | some t => if t.isEmpty then "empty" else if useLongForm t then "true" else "false"
+    | none => "bad-request"
+  | "level", [text] =>
+    -- the level the model's level search picks for the long form (`-`: the text does not take the long form)
+    match hexToBytes? text with
+    | some t =>
+      if t.isEmpty || !useLongForm t then "-" else toString (findLevel (t.length + 1) 0 t)
     | none => "bad-request"
   | "append_safe", [text, src] =>
     match hexToBytes? text, hexToBytes? src with
